@@ -224,6 +224,10 @@ func (h *host) getCPUPlans(cpuRequest float64) []types.CPUMap {
 
 	if full == 0 {
 		diff := h.maxFragmentCores - len(h.fragmentCores)
+		if diff < 0 {
+			// more cores already carry fragments than max-share allows: no full core can be turned into a fragment core
+			diff = 0
+		}
 		h.fragmentCores = append(h.fragmentCores, h.fullCores[:diff]...)
 		h.fullCores = h.fullCores[diff:]
 		return h.getFragmentCPUPlans(h.fragmentCores, fragment)
